@@ -31,7 +31,11 @@ ForwardedOK(stream, log) ==
 Verdict(r) ==
   LET d == DeclRun(DeclInit, r.stream)
       a == r.actual
-      shape == IF d.f1 THEN "F1" ELSE IF d.f4a THEN "F4a" ELSE IF d.f4b THEN "F4b" ELSE ""
+      m == AsIsRun(AsIsInit, r.stream)
+      \* a known finding is only recognised when the stream has its shape AND the
+      \* real counters are exactly what the as-is transcription predicts
+      shape == IF ~SameAsAsIs(m, a) THEN ""
+               ELSE IF d.f1 THEN "F1" ELSE IF d.f4a THEN "F4a" ELSE IF d.f4b THEN "F4b" ELSE ""
       c12 == (IF CountersOK(d, a) THEN {} ELSE {<<"C12", "step-or-error-counters-differ-from-stream", shape>>})
              \cup (IF a.features = d.feats /\ a.rules = d.rules THEN {}
                    ELSE {<<"C12", "feature-or-rule-counters-differ-from-stream", shape>>})
@@ -39,13 +43,18 @@ Verdict(r) ==
                    ELSE {<<"C12", IF shape = "" THEN "scenario-counters-differ-from-last-attempts"
                                   ELSE "scenario-counted-wrongly-known-shape", shape>>})
              \cup (IF WritesOK(r.stream, r.log) THEN {} ELSE {<<"C12", "summary-not-written-exactly-once-right-after-Finished", shape>>})
-      exp == DeclFailed(d)
       \* behind FailOnSkipped the statistics writer sees the rewritten stream
-      expFos == DeclFailed(DeclRun(DeclInit, FoS(r.stream, ShouldFailDefault)))
-      c01 == {<<"C01", IF v.failed /\ ~exp /\ d.f1 /\ v.failed_steps = 0 /\ v.parsing_errors = 0
-                       THEN "run-failed-only-by-hook-failure-of-a-retried-attempt"
+      sFos == FoS(r.stream, ShouldFailDefault)
+      dFos == DeclRun(DeclInit, sFos)
+      mFos == AsIsRun(AsIsInit, sFos)
+      Exp(v) == IF v.fos THEN DeclFailed(dFos) ELSE DeclFailed(d)
+      \* known shape F1: reported failed although no attempt failed finally, the stream has a
+      \* hook failure in a retried attempt, and the verdict is what today's machine predicts
+      IsF1(v) == v.failed /\ ~Exp(v) /\ v.parsing_errors = 0
+                 /\ (IF v.fos THEN dFos.f1 /\ AsIsFailed(mFos) ELSE d.f1 /\ AsIsFailed(m))
+      c01 == {<<"C01", IF IsF1(v) THEN "run-failed-only-by-hook-failure-of-a-retried-attempt"
                        ELSE "verdict-differs-from-final-failure", v.pipeline>>
-               : v \in {x \in Range(r.verdicts) : x.failed # (IF x.fos THEN expFos ELSE exp)}}
+               : v \in {x \in Range(r.verdicts) : x.failed # Exp(x)}}
   IN c12 \cup c01
 
 Next ==
